@@ -7,7 +7,7 @@ from props.tv_common import *
 from props.parse_common import corpus_files, regression_files
 
 TYPES = ["config", "plain", "dates", "ints", "roote", "s", "owner"]
-ONE = ["pure", "disp", "rt", "rtp", "trt", "fix", "fixp", "same", "ord", "ordp", "tord", "twice"]
+ONE = ["pure", "disp", "rt", "rtp", "trt", "fix", "fixp", "same", "esame", "ord", "ordp", "tord", "twice"]
 WHAT = {
     "pure": "two calls of to_string on the same value give different text",
     "disp": "Display of the table differs from to_string of the table",
@@ -17,6 +17,7 @@ WHAT = {
     "fix": "to_string(from_str(to_string(v))) differs from to_string(v)",
     "fixp": "to_string_pretty(from_str(to_string_pretty(v))) differs from to_string_pretty(v)",
     "same": "plain and pretty outputs decode to different values",
+    "esame": "toml_edit::ser::to_string and to_string_pretty do not both decode to the value",
     "ord": "a table's own key/value lines do not all precede its sub-table headers (plain)",
     "ordp": "a table's own key/value lines do not all precede its sub-table headers (pretty)",
     "tord": "a table's own key/value lines do not all precede its sub-table headers (root as toml::Table)",
@@ -173,7 +174,7 @@ def run(ctx):
                     bad = f"a value of the derived family does not serialize: {i[:200]}"
                 else:
                     serialized += 1
-                    for k in ("pure", "rt", "rtp", "fix", "fixp", "same", "ord", "ordp"):
+                    for k in ("pure", "rt", "rtp", "fix", "fixp", "same", "esame", "ord", "ordp"):
                         if f.get(k) != "1" and not bad:
                             bad = f"{WHAT[k]} ({k}={f.get(k)})"
                     nontriv.add(c)
